@@ -66,6 +66,10 @@ def pairs_of(o):
     return out
 
 
+def _TLP_OBJ():
+    return {M1: stix2.v21.TLP_WHITE, M2: stix2.v21.TLP_GREEN, M3: stix2.v21.TLP_AMBER}
+
+
 def check_queries(o, pairs, omarks):
     """every query function agrees with the set model, for every selector and flag combination"""
     if pairs_of(o) != pairs or set(o.get("object_marking_refs", []) or []) != set(omarks):
@@ -90,6 +94,12 @@ def check_queries(o, pairs, omarks):
                 if not (inh and K.open("C07-api-is-marked-inherited")):
                     for m in MARKS + OMARKS[2:]:
                         if bool(via.is_marked(o, m, t, inh, desc)) != (m in wapi):
+                            return False
+                        # the same marking named by its marking-definition object, alone or in a list (accepted everywhere an id is)
+                        mo = _TLP_OBJ().get(m)
+                        if mo is not None and inh and bool(via.is_marked(o, mo if desc else [mo], t, inh, desc)) != (m in wapi):
+                            return False
+                        if mo is not None and inh and not desc and bool(gm.is_marked(o, mo, [t], inh, desc)) != (m in want):
                             return False
     if set(via.get_markings(o)) != set(omarks):
         return False
